@@ -1,9 +1,9 @@
 """C17 - results depend only on the model, not on process history or diagnostics.
 
-spec:   spec/Process.tla (actions NewModel, Declare, Main, RegisterLogs, Cleanup, Reparse, Solve,
+spec:   spec/Process.tla (actions NewModel, DeclareHead, DeclareRest, Main, RegisterLogs, Cleanup, Reparse, Solve,
         SolveAgain, SetTrace; invariants C17_HistoryIndependent, C17_ReparseClean, action property
         C17_ResolveIdempotent)
-TLC:    exhaustive check of the bounded instances (2 models x 2 blocks, 1-2 stand-alone solvers);
+TLC:    exhaustive check of the bounded instances (2 models x 2 blocks, 0-2 stand-alone solvers);
         every maximal history that computes at least one result is emitted
 replay: every history is executed on real Model / EquationSolver / Logger objects inside a child
         Python process.  The histories are dealt (seeded shuffle) into batches; one child executes
@@ -20,13 +20,20 @@ Property clauses (only these can produce a VIOLATION):
   C17_HistoryIndependent  after Main(m): main() returned, key set and every series identical to the
                           fresh-process reference; after a solve: SolveEquation() returned (traced or
                           not), key set, lengths (horizon+1) and every series identical to the reference
-                          of the block; NewModel / Declare / Reparse do not raise
+                          of the block; NewModel / DeclareHead / DeclareRest / Reparse do not raise
   C17_ResolveIdempotent   SolveEquation() again on the same solver leaves every series as it was
   C17_ReparseClean        a solver that was given another block reports exactly the key set of that
                           block (as observed in the fresh process), each series of length horizon+1
 Readings: "the block's variables" = the key set the same block produces in a fresh process (it
 contains the time axis 'k' and the automatic 't'); the driver checks (machinery) that this reference
 set consists of the names the block text declares plus at most 'k' and 't'.
+Models: SIM = the sectors of gl_book.chapter3.SIM('C') (same classes, parameters, order) created in two
+parts - GOV, HH, BUS | TF, LAB, GOOD, the book's exogenous demand and hh.AddInitialCondition('F', 80.) -
+so that other models can be created in between; TWO = sectors AA | BB with placeholder names requested
+before main(), an initial condition booked through Sector.AddInitialCondition (sector id ->
+Country.LookupSector(int)), an exogenous series and an initial condition given by sector code, and an
+income exclusion (matched by id).  Whatever identifies a sector by its id is thereby exposed to id
+collisions caused by other objects created while the model is under construction.
 Conformance clauses (DRIFT only): id counter and logger registry after every action, cached
 VariableList, number of ('k', ...) entries SetInitialConditions has appended to Parser.Exogenous
 (one per solve: the list grows, the series do not change), text of Model.FinalEquations.
@@ -70,10 +77,10 @@ MaxTime = 4
 }
 MODEL_HORIZON = {'SIM': 2, 'TWO': 6}
 REFERENCE_HIST = {
-    'SIM': [{'a': 'NewModel', 'x': 'SIM', 'b': '', 'k': 0}, {'a': 'Declare', 'x': 'SIM', 'b': '', 'k': 0},
-            {'a': 'Main', 'x': 'SIM', 'b': '', 'k': 0}],
-    'TWO': [{'a': 'NewModel', 'x': 'TWO', 'b': '', 'k': 0}, {'a': 'Declare', 'x': 'TWO', 'b': '', 'k': 0},
-            {'a': 'Main', 'x': 'TWO', 'b': '', 'k': 0}],
+    'SIM': [{'a': 'NewModel', 'x': 'SIM', 'b': '', 'k': 0}, {'a': 'DeclareHead', 'x': 'SIM', 'b': '', 'k': 0},
+            {'a': 'DeclareRest', 'x': 'SIM', 'b': '', 'k': 0}, {'a': 'Main', 'x': 'SIM', 'b': '', 'k': 0}],
+    'TWO': [{'a': 'NewModel', 'x': 'TWO', 'b': '', 'k': 0}, {'a': 'DeclareHead', 'x': 'TWO', 'b': '', 'k': 0},
+            {'a': 'DeclareRest', 'x': 'TWO', 'b': '', 'k': 0}, {'a': 'Main', 'x': 'TWO', 'b': '', 'k': 0}],
     'A': [{'a': 'Reparse', 'x': 's1', 'b': 'A', 'k': 0}, {'a': 'Solve', 'x': 's1', 'b': 'A', 'k': 0}],
     'B': [{'a': 'Reparse', 'x': 's1', 'b': 'B', 'k': 0}, {'a': 'Solve', 'x': 's1', 'b': 'B', 'k': 0}],
 }
@@ -133,26 +140,64 @@ def compare(ev, snap, ref, horizon):
     ev['diff'] = diff[:300]
 
 
-def declare_two(mod):
-    """Two sectors that ask for each other's variable names before main(): the sectors have no full
-    code yet, so GetVariableName hands out `_<ID>__P` / `_<ID>__Q` and these are embedded."""
+def two_head(st):
+    """first part of model TWO: country and sector AA"""
     from sfc_models.models import Country
     from sfc_models.sector import Sector
+    mod = st['model']
     c = Country(mod, 'C2', 'country two')
     a = Sector(c, 'AA', 'sector A')
-    b = Sector(c, 'BB', 'sector B')
     a.AddVariable('P', 'driver', '0.5*LAG_P + Z')
     a.AddVariable('LAG_P', 'lag', 'P(k-1)')
     a.AddVariable('Z', 'input path', '1.0')
     mod.AddExogenous('AA', 'Z', '[1.0, 2.0, 4.0] + [3.0]*20')      # by sector code: looked up at main()
+    st['country'], st['a'] = c, a
+
+
+def two_rest(st):
+    """second part: sector BB; the two sectors ask for each other's variable names before main() (no full
+    code yet, so GetVariableName hands out `_<ID>__<var>` and these are embedded); an initial condition
+    booked through the sector object (-> its id), an income exclusion (matched by id)."""
+    from sfc_models.sector import Sector
+    mod, c, a = st['model'], st['country'], st['a']
+    b = Sector(c, 'BB', 'sector B')
     name_p = a.GetVariableName('P')
     b.AddVariable('Q', 'follows P', '0.25*Q + 0.5*' + name_p)
     b.AddVariable('R', 'decorative', 'Q - ' + name_p)
     name_q = b.GetVariableName('Q')
     a.AddVariable('S', 'back reference', name_q + ' + 1.0')
-    mod.AddInitialCondition('AA', 'P', 2.0)
+    mod.AddInitialCondition('AA', 'P', 2.0)                     # by sector code
+    b.AddInitialCondition('F', 5.0)                             # by sector id
+    mod.AddCashFlowIncomeExclusion(b, 'PAY')                    # B's payment is not (negative) income of B
+    b.AddCashFlow('-PAY', '0.1*Q', 'payment to A')
+    name_pay = b.GetVariableName('PAY')
+    a.AddCashFlow('+PAY', name_pay, 'receipt from B')           # income of A
     mod.MaxTime = MODEL_HORIZON['TWO']
-    return [name_p, name_q]
+    st['placeholders'] = [name_p, name_q, name_pay]
+
+
+def sim_head(st):
+    """first part of SIM.build_model(): government, households, business"""
+    from sfc_models.sector_definitions import ConsolidatedGovernment, Household, FixedMarginBusiness
+    country = st['builder'].Country
+    st['gov'] = ConsolidatedGovernment(country, 'GOV', 'Government')
+    st['hh'] = Household(country, 'HH', 'Household', alpha_income=.6, alpha_fin=.4)
+    FixedMarginBusiness(country, 'BUS', 'Business Sector')
+
+
+def sim_rest(st):
+    """the remaining sectors of SIM.build_model() (tax flow and the two markets: the ones that scan the other
+    sectors and leave themselves out by id), in its order, the book's exogenous demand, and wealth the
+    households start with (booked through the sector object, i.e. its id)"""
+    from sfc_models.sector_definitions import TaxFlow
+    from sfc_models.sector import Market
+    country = st['builder'].Country
+    TaxFlow(country, 'TF', 'TaxFlow', taxrate=.2)
+    Market(country, 'LAB', 'Labour market')
+    Market(country, 'GOOD', 'Goods market')
+    st['gov'].SetExogenous('DEM_GOOD', '[0.,] + [20.,] * 105')
+    st['hh'].AddInitialCondition('F', 80.)
+    st['model'].MaxTime = MODEL_HORIZON['SIM']
 
 
 def execute(hist, refs, base):
@@ -186,13 +231,10 @@ def execute(hist, refs, base):
                 else:
                     from sfc_models.models import Model
                     models[x] = {'builder': None, 'model': Model(), 'placeholders': []}
-            elif a == 'Declare':
-                st = models[x]
-                if x == 'SIM':
-                    st['builder'].build_model()
-                    st['model'].MaxTime = MODEL_HORIZON['SIM']
-                else:
-                    st['placeholders'] = declare_two(st['model'])
+            elif a == 'DeclareHead':
+                (sim_head if x == 'SIM' else two_head)(models[x])
+            elif a == 'DeclareRest':
+                (sim_rest if x == 'SIM' else two_rest)(models[x])
             elif a == 'Main':
                 st = models[x]
                 mod = st['model']
@@ -353,7 +395,7 @@ def references(wd):
                     n, sorted(keys)))
         else:
             ph = last.get('placeholders', [])
-            if n == 'TWO' and (len(ph) != 2 or not all(p.startswith('_') for p in ph)):
+            if n == 'TWO' and (len(ph) != 3 or not all(p.startswith('_') for p in ph)):
                 raise core.MachineryError('model TWO did not receive placeholder names: %r' % ph)
             leaked = [p for p in ph if p in last['eqs'] or any(p in key for key in keys)]
             if leaked:
@@ -394,14 +436,14 @@ def signature(clause, events):
 
 def nontrivial(beh):
     """some result is computed after at least one action that is not part of computing it alone
-    (alone = NewModel, Declare, Main of that model / the first Reparse and the first Solve of that solver)"""
+    (alone = NewModel, DeclareHead, DeclareRest, Main of that model / the first Reparse and the first Solve of that solver)"""
     h = beh['hist']
     for i, a in enumerate(h):
         if a['a'] not in PRODUCE:
             continue
         mine = [p for p in h[:i] if p['x'] == a['x']]
         if a['a'] == 'Main':
-            own = [p for p in mine if p['a'] in ('NewModel', 'Declare')]
+            own = [p for p in mine if p['a'] in ('NewModel', 'DeclareHead', 'DeclareRest')]
         elif a['a'] == 'Solve' and [p['a'] for p in mine] == ['Reparse']:
             own = mine
         else:
@@ -521,12 +563,13 @@ def judge(rep, behs, refs, wd, n_fresh, n_batches):
 
 def run(rep):
     quick = rep.tier == 'quick'
-    cfgs = ['MC_Process_quick.cfg', 'MC_Process_quick2.cfg']
+    cfgs = ['MC_Process_quick.cfg', 'MC_Process_quick2.cfg', 'MC_Process_quick3.cfg']
     if not quick:
-        cfgs += ['MC_Process_thorough.cfg', 'MC_Process_thorough2.cfg']
+        cfgs += ['MC_Process_thorough.cfg', 'MC_Process_thorough2.cfg', 'MC_Process_thorough3.cfg']
     rep.rule = ('histories = all maximal behaviours of the bounded Process instances emitted by TLC that contain a '
-                'Main / Solve / SolveAgain (2 models x 2 blocks; 1 solver, length 5 and 2 solvers, length 4; thorough: '
-                'also 1 solver length 6 and 2 solvers length 5 with 3 trace settings); each executed in a child '
+                'Main / Solve / SolveAgain (2 models, each declared in two parts so that other models are created in '
+                'between, x 2 blocks; 1 solver, length 5; 2 solvers, length 4; models only, length 6; thorough: also '
+                '1 solver length 6, 2 solvers length 5 with 3 trace settings, models only length 8); each executed in a child '
                 'process after the other histories of its batch (mode accumulated), a seeded sample also alone '
                 '(mode fresh); distinct = distinct (history, mode); non-trivial = some result is computed after '
                 'at least one action that is not part of computing it alone')
